@@ -69,6 +69,16 @@ def run(rep, props, replay=None):
             pos = sds > 1e-9 * sc
             if np.max(np.abs(v[pos] - 1.0), initial=0) > 1e-8:
                 mon.append("pointwise variance after standardising is not one where it was positive")
+            # the option center=False: the values are divided by the same pointwise standard deviation, not recentred
+            stn = np.asarray(d.standardize(center=False).values)
+            if not np.all(np.isfinite(stn)):
+                mon.append("standardize(center=False) returned non-finite values")
+            else:
+                if np.max(np.abs(stn.var(axis=0)[pos] - 1.0), initial=0) > 1e-8:
+                    mon.append("standardize(center=False): pointwise variance is not one where it was positive")
+                t = runq.add(f"mclose {C.qlit(1e-8 * sc / max(1e-3, float(sds[sds > 0].min()) if np.any(sds > 0) else 1.0))} "
+                             f"(standardize_nc opsQ {C.qlist(sds)} {qX}) {C.qmat(stn)}")
+                todo.append((t, "standardize(center=False)", kind, X))
         # rescale: default, use_argvals_stand, user weight
         for mode in ("default", "stand", "user"):
             if mode == "default":
